@@ -70,6 +70,12 @@ theorem a_signal_to_noise_clipped [Field α] [LinearOrder α] [BEq α] [LawfulBE
   cases hv
   exact le_max_right _ _
 
+/-- (a4) `reduced_chi_squared = chi_squared / (number of unmasked pixels)`. -/
+theorem a_reduced_chi_squared [Field α] [BEq α] (f : FitInput α) :
+    fitReducedChiSquared f = fitChiSquared f / (((f.bits.filter fun b => !b).length : Nat) : α) := by
+  unfold fitReducedChiSquared
+  rw [count_unmasked]
+
 /-! ## (b) sums over unmasked pixels only; masked cells never matter; both modes agree -/
 
 /-- (b0) numpy's `a[mask == 0]` on a native array is exactly C01's `array_2d_slim_from`. -/
@@ -279,6 +285,14 @@ theorem d_no_regularization_index_list (objs : List (LinObj α)) :
           ↔ (o.reg.isNone = true ∧ i < o.params)
             ∨ (o.params ≤ i ∧ i - o.params ∈ Spec.Fit.noRegFrom 0 os) :=
   ⟨noRegularizationIndexList_eq objs, mem_noRegFrom_cons⟩
+
+/-- (d1') that list is strictly ascending (so it has no repetitions: `np.delete` and the diagonal
+    additions of the curvature matrix touch each unregularized parameter exactly once). -/
+theorem d_no_regularization_index_list_sorted (objs : List (LinObj α)) :
+    (noRegularizationIndexList objs).Pairwise (· < ·) ∧ (noRegularizationIndexList objs).Nodup := by
+  rw [noRegularizationIndexList_eq]
+  have h := noRegFrom_sorted objs 0
+  exact ⟨h, h.imp (fun hab => Nat.ne_of_lt hab)⟩
 
 /-- (d2) `regularization_matrix` (block-diagonal, zero blocks for unregularized objects) is
     `total_params × total_params` and vanishes on every row and every column belonging to an
